@@ -18,6 +18,10 @@ append_cut_irrelevant, image_env_independent).  Added legs: component cases re-c
 calls, same group: implementation and model must print the same text); tool sweep feeds tar2sqfs through a dribbling pipe
 (random write sizes); tie (layout): the composed pipelines of coq/ImgDet (tar2sqfs = archive order, gensquashfs = fs->files
 order) predict, for incompressible file contents, every file inode and the fragment table of the image the real tools write.
+Session 3, strengthening (cstate.py, h_cstate.c): the compressor OBJECTS are functions of (configuration, block) - every back end x
+configurations covering every option that selects a code path, one object fed every block after every other block, continued on
+sqfs_copy copies, exact comparison with a fresh object per block, both directions; tool sweep with non-default -X option sets of
+every compressor over -j/-Q/delay against the NO_THREAD_IMPL -j 1 image.  Both run in a background thread beside the other legs.
 Thorough: more of everything + a ThreadSanitizer build."""
 import hashlib
 import io
@@ -40,6 +44,7 @@ from vlib import sqfsimg
 HERE = os.path.dirname(os.path.abspath(__file__))
 sys.path.insert(0, HERE)
 import gen  # noqa: E402
+import cstate  # noqa: E402
 
 LEVEL = "proof"
 SHIM_H = os.path.join(B.VERIF, "props", "C09", "shim_sched.h")
@@ -58,6 +63,7 @@ def builds(ctx):
     out["h_thr"] = B.compile_harness(asan, [os.path.join(HERE, "h_bp.c")], "h_bp_c02")
     out["h_env"] = B.compile_harness(asan, [os.path.join(HERE, "h_env.c")], "h_env_c02")
     out["h_ino"] = B.compile_harness(asan, [os.path.join(HERE, "h_ino.c")], "h_ino_c02")
+    out["h_cstate"] = B.compile_harness(asan, [os.path.join(HERE, "h_cstate.c")], "h_cstate_c02")
     plain = B.build("plain")
     out["plain"] = plain
     serial = B.build("plain", serial=True)
@@ -957,6 +963,45 @@ def tsan_run(ctx, bl):
 
 
 # ----------------------------------------------------------------------------------------------
+# compressor objects are functions of (configuration, block): component oracle + tool sweep with -X option sets
+# ----------------------------------------------------------------------------------------------
+def compressor_legs(ctx, bl, only=None, replay=None):
+    """runs in a background thread; nothing is reported from here (report_compressor_legs does, on the main thread)"""
+    out = dict(findings=[], cstate=None, xopt=None)
+    if only in (None, "cstate"):
+        f, st = cstate.component(ctx.seed, ctx.tier, bl["h_cstate"], replay=replay if only == "cstate" else None,
+                                 nproc=4 if ctx.tier == "quick" else 6)
+        out["findings"] += f
+        out["cstate"] = st
+        if ctx.tier == "thorough" and only is None and not f:
+            f, st2 = cstate.component(ctx.seed + 1000, ctx.tier, bl["h_cstate"], nproc=6, bs=32768)
+            out["findings"] += f
+            st["second_pass_block_size_32768"] = st2
+    if only in (None, "xopt"):
+        f, st = cstate.tool_xopt(ctx.seed, ctx.tier, ctx.scratch, bl, run_tool, replay=replay if only == "xopt" else None)
+        out["findings"] += f
+        out["xopt"] = st
+    return out
+
+
+def report_compressor_legs(ctx, res):
+    st, xs = res["cstate"], res["xopt"]
+    if st:
+        ctx.coverage["compressor_state"] = st
+        ctx.coverage["evaluations"] += st["do_block_calls"]
+        ctx.coverage["distinct_nontrivial"] += st["configurations"] - len(st["not_compiled_in"])
+        if st["not_compiled_in"]:
+            ctx.notes.append("compressor configurations refused by sqfs_compressor_create (not compared): %s" % "; ".join(st["not_compiled_in"][:6]))
+    if xs:
+        ctx.coverage["xopt_sweep"] = xs
+        ctx.coverage["evaluations"] += xs["runs"]
+        ctx.coverage["distinct_nontrivial"] += xs["cases"]
+    ctx.log("compressor legs: %s" % json.dumps(dict(cstate=st, xopt=xs))[:600])
+    for f in res["findings"]:
+        ctx.violation(f["sig"], f["what"], f["replay"])
+    return bool(res["findings"])
+
+
 def run(ctx):
     bl = builds(ctx)
     regen_blk(ctx, bl["h_thr"])
@@ -972,6 +1017,8 @@ def run(ctx):
         "props/C09/shim_sched.{h,c}: cooperative scheduler replacing pthreads in threadpool.c (component leg 'sched')",
         "props/C02/shim_clock.c, shim_delay.c (LD_PRELOAD), sha256 of the tool output, ASan verdict on the harness",
         "props/C02/gen.py and the input generators of check.py",
+        "props/C02/h_cstate.c (script interpreter over sqfs_compressor_create / sqfs_copy / do_block, memcmp against the stored "
+        "output of a fresh object) and props/C02/cstate.py (blocks, configurations, sequences)",
     ]
     ctx.assumptions += [
         "A1 (pool): lib/util/src/threadpool.c refines a FIFO queue of process_block for every schedule and worker count. "
@@ -983,7 +1030,9 @@ def run(ctx):
         "A2 (value passing): a block is not modified by the main thread between submit and dequeue, and the worker "
         "touches nothing but the block and its own scratch buffer (read off frontend.c/backend.c; ASan/TSan legs)",
         "A3: fragment hash table and block writer are deterministic functions of their call history (abstract in the "
-        "theorems; C08 owns their correctness); compressors and xxh32 are functions of the block bytes",
+        "theorems; C08 owns their correctness); compressors and xxh32 are functions of the block bytes - for the compressor "
+        "objects of the five back ends this is checked on the implementation (cstate.py: one object and its sqfs_copy copies "
+        "fed every block after every other block, every option that selects a code path, exact comparison with a fresh object)",
         "A4: everything after the data path (fstree sort/post-process, inode/dir/fragment/id/xattr tables) is not in the "
         "C02 model; covered by the tool-level oracle only",
         "A5: the inode table is a total function from file numbers to inodes that starts fresh everywhere (begin_file "
@@ -996,6 +1045,9 @@ def run(ctx):
         "returns Ok with the specification's writes, inodes and fragment table; Example ex_on_threadpool computes one such run")
     if ctx.replay:
         kind = json.load(open(ctx.replay)).get("kind")
+        if kind in ("cstate", "xopt"):
+            report_compressor_legs(ctx, compressor_legs(ctx, bl, only=kind, replay=json.load(open(ctx.replay))))
+            return
         if kind == "tool":
             tool_sweep(ctx, bl)
             return
@@ -1010,6 +1062,14 @@ def run(ctx):
             if lay_bad:
                 report_layout(ctx, lay_bad, lay_seed)
             return
+    bg = ThreadPoolExecutor(max_workers=1)
+    try:
+        _run_main(ctx, bl, drv, drv_img, bg)
+    finally:
+        bg.shutdown(wait=True)
+
+
+def _run_main(ctx, bl, drv, drv_img, bg):
     cases, lines, model, tie_bad, impl_disagree, res = tie_component(ctx, bl, drv)
     ctx.log("component tie: %d cases, %d legs, tie mismatches %d, implementation disagreements %d"
             % (len(lines), len(res), len(tie_bad), len(impl_disagree)))
@@ -1019,12 +1079,16 @@ def run(ctx):
             ctx.violation("tie-bp", "replay: model and implementation (%s) disagree" % name,
                           dict(kind="component", cases=[lines[i]], model=model[i][-3000:], impl=res[name][1][i][-3000:]), no_input=True)
         return
+    # the compressor legs run beside the remaining legs (not beside the component tie: its legs have a 20 s hang time-out
+    # and 36 processes of their own)
+    bg_fut = bg.submit(compressor_legs, ctx, bl)
     tie_env(ctx, bl, drv)
     ino_bad = tie_ino(ctx, bl, drv)
     lay_bad, lay_seed = tie_layout(ctx, bl, drv_img)
     ctx.log("layout tie: %s" % json.dumps(ctx.coverage.get("layout", {}))[:200])
     bad = tool_sweep(ctx, bl, short=bool(impl_disagree))
     ctx.log("tool sweep: %s" % json.dumps(ctx.coverage.get("tool_sweep", {}))[:300])
+    report_compressor_legs(ctx, bg_fut.result())
     broken = bool(tie_bad) or bool(ctx.proof_broken) or bool(ino_bad) or bool(lay_bad)
     if broken and not bad and not impl_disagree and ctx.tier == "quick":
         # tie broke / proof broke => search harder before reporting "no failing input found"
